@@ -40,7 +40,11 @@ func (p P) Posting() ledger.Posting {
 
 // Op is one operation of an alphabet. It is plain data so that replays are files.
 type Op struct {
-	Kind   string `json:"kind"` // post script revert txmeta accmeta deltxmeta delaccmeta schema
+	// Kind: post script revert txmeta accmeta deltxmeta delaccmeta schema (ledger operations,
+	// run by Apply); createledger (Ledger in bucket Address), deletebucket / restorebucket
+	// (soft delete / restore of bucket Address) are system operations, run by the sequence
+	// explorer through the system controller.
+	Kind   string `json:"kind"`
 	Ledger string `json:"ledger,omitempty"`
 	Name   string `json:"name,omitempty"` // short label for evidence
 
@@ -106,6 +110,10 @@ func (o Op) String() string {
 		return fmt.Sprintf("deltxmeta(%d,%s)", o.TxID, o.Key)
 	case "delaccmeta":
 		return fmt.Sprintf("delaccmeta(%s,%s)", o.Address, o.Key)
+	case "createledger":
+		return fmt.Sprintf("createledger(%s in %s)", o.Ledger, o.Address)
+	case "deletebucket", "restorebucket":
+		return fmt.Sprintf("%s(%s)", o.Kind, o.Address)
 	}
 	return o.Kind
 }
